@@ -22,12 +22,21 @@ package main
 // RFC822.SIZE, unique per message the harness creates; the two messages of a RACE share one and are
 // flagged `r`).
 //
+// SIZE x LIMIT (limSizeHistories, run on every check after the corpus): connector batches and multi-message
+// COPY / MOVE whose size lies on both sides of db.ChunkLimit and of its half (the SQL layer cuts its statements
+// there, and so would anybody who cuts a large update into pieces) against message-count and UID limits placed so
+// that the operation crosses the limit in its FIRST, a MIDDLE or its LAST slice of db.ChunkLimit messages, or fits
+// exactly. These histories run in `MODE tiny` (messages of a few hundred bytes: a marker of fixed width and a body
+// one byte longer per message, so that the size still identifies the message) and with a WATCHING session that has the
+// target mailbox selected: what it is told at its next NOOP goes to the judge with the status (`<status>@<mbox>=E<n>|-`):
+// a refused operation must not have been announced, an accepted one is announced with the exact count.
+//
 // Replay file:
 //   oracle c17limits
 //   limits <maxMailboxes> <maxMessages> <maxUID>
 //   S<i> APPEND <mbox> | S<i> COPY <src> <n | lo:hi> <dst> | S<i> MOVE <src> <n | lo:hi> <dst> | S<i> CREATE <name>
 //   S<i> DELETE <name> | S<i> EXPUNGE <mbox> <k> | K MBOX <name> | K BATCH <mbox> <n>
-//   K BATCH2 <mbox1> <n1> <mbox2> <n2> | RACE <mbox>
+//   K BATCH2 <mbox1> <n1> <mbox2> <n2> | RACE <mbox> | MODE tiny | W SELECT <mbox>
 
 import (
 	"context"
@@ -167,6 +176,10 @@ type limRunner struct {
 	// (known finding connector-echo-after-refusal), so from then on the connector's idea of which message is in which
 	// mailbox differs from gluon's, and the echo of a later, accepted command can carry that difference into gluon
 	diverged bool
+	// tiny: small messages (MODE tiny); w: the watching session and the mailbox it has selected (W SELECT)
+	tiny bool
+	w    *Client
+	wsel string
 }
 
 func newLimRunner(lim [3]int) (*limRunner, error) {
@@ -208,6 +221,9 @@ func (r *limRunner) close() {
 	}
 	if r.o != nil {
 		r.o.Close()
+	}
+	if r.w != nil {
+		r.w.Close()
 	}
 	r.sys.Close(true)
 }
@@ -302,8 +318,40 @@ func awShowWorld(w []limMB) string {
 	return strings.Join(s, ";")
 }
 
+// bodyLen: the length of the body of the message numbered n (it makes the size identify the message)
+func (r *limRunner) bodyLen(n int) int {
+	if r.tiny {
+		return n
+	}
+	return 16 * n
+}
+
+// watchTok: what the watching session is told at its NOOP: E<n> (the last EXISTS) or - ; "" = nobody watches
+func (r *limRunner) watchTok() string {
+	if r.w == nil || r.wsel == "" {
+		return ""
+	}
+	rep := r.w.Cmd("NOOP")
+	if rep.Err != nil || rep.Status != "OK" {
+		return "@" + r.wsel + "=lost"
+	}
+	tok := "-"
+	for _, u := range rep.Untagged {
+		if m := limReExists.FindStringSubmatch(u); m != nil {
+			tok = "E" + m[1]
+		}
+	}
+	return "@" + r.wsel + "=" + tok
+}
+
+var limReExists = awRegexpMust(`^\* (\d+) EXISTS`)
+
 func (r *limRunner) message() []byte {
 	r.msgN++
+	if r.tiny {
+		// a marker of fixed width, one byte of body more per message: the size identifies the message
+		return SimpleMessage(fmt.Sprintf("t%06d", r.msgN), strings.Repeat("y", r.msgN))
+	}
 	// 16 bytes more per message: the size identifies the message whatever the length of its marker
 	return SimpleMessage(fmt.Sprintf("lim%d", r.msgN), strings.Repeat("y", 16*r.msgN))
 }
@@ -356,6 +404,26 @@ func (r *limRunner) exec(step string) error {
 	}
 	connector := false
 	switch {
+	case f[0] == "MODE" && f[1] == "tiny":
+		r.tiny = true
+		return nil
+	case f[0] == "W" && f[1] == "SELECT" && len(f) == 3:
+		if r.w == nil {
+			c, err := r.sys.Dial("W")
+			if err != nil {
+				return err
+			}
+			if rep := c.Login("user"); rep.Status != "OK" {
+				return fmt.Errorf("login: %s %v", rep.Tagged, rep.Err)
+			}
+			r.w = c
+		}
+		rep := r.w.Cmd("SELECT " + awQuoteMB(f[2]))
+		if rep.Status != "OK" {
+			return fmt.Errorf("W SELECT %s: %s %v", f[2], rep.Tagged, rep.Err)
+		}
+		r.wsel = f[2]
+		return nil
 	case f[0] == "K" && f[1] == "MBOX" && len(f) == 3:
 		fl := imap.NewFlagSet(imap.FlagSeen, imap.FlagFlagged, imap.FlagDeleted, imap.FlagAnswered, imap.FlagDraft)
 		if err := r.sys.Conn.MailboxCreated(imap.Mailbox{ID: imap.MailboxID(f[2]), Name: strings.Split(f[2], "/"), Flags: fl, PermanentFlags: fl, Attributes: imap.NewFlagSet()}); err != nil {
@@ -382,7 +450,7 @@ func (r *limRunner) exec(step string) error {
 		var reps [2]Reply
 		// two different messages of the same size: which of them gets the lower UID is up to the scheduler
 		r.msgN++
-		body := strings.Repeat("y", 16*r.msgN)
+		body := strings.Repeat("y", r.bodyLen(r.msgN))
 		lits := [2][]byte{SimpleMessage(fmt.Sprintf("raceA%d", r.msgN), body), SimpleMessage(fmt.Sprintf("raceB%d", r.msgN), body)}
 		for i := 0; i < 2; i++ {
 			wg.Add(1)
@@ -507,7 +575,7 @@ func (r *limRunner) exec(step string) error {
 		if err != nil {
 			return err
 		}
-		r.judgeLine(step, op, before, status, mid)
+		r.judgeLine(step, op, before, status+r.watchTok(), mid)
 		if status == "no" && (strings.HasPrefix(op, "copy ") || strings.HasPrefix(op, "move ")) {
 			r.diverged = true
 		}
@@ -524,7 +592,7 @@ func (r *limRunner) exec(step string) error {
 		return err
 	}
 	if connector {
-		r.judgeLine(step, op, before, status, after)
+		r.judgeLine(step, op, before, status+r.watchTok(), after)
 	} else {
 		// applying the connector's echo of an IMAP command must not change anything
 		r.judgeLine(step, op, before, "effect", after)
@@ -777,6 +845,175 @@ func limApproach(g *Rng, lim [3]int) func(last string) string {
 	}
 }
 
+
+// ---- SIZE x LIMIT ------------------------------------------------------------------------
+
+type limDirected struct {
+	name  string
+	lim   [3]int
+	steps []string
+}
+
+// limSizeHistories: connector batches (and COPY / MOVE sets) of 1, 2, H-1, H, H+1, L-1, L, L+1, L+2, 2L-1, 2L,
+// 2L+1 messages (L = db.ChunkLimit, H = L/2) against a message-count limit / a UID limit placed so that the
+// operation crosses it in the FIRST, a MIDDLE or the LAST slice of L messages, or fits exactly. A refused operation
+// leaves everything as it was (count, UIDNEXT, content, nothing announced to the watching session) - so the same
+// mailbox takes the next operation; an accepted one leaves the exact count.
+func limSizeHistories() []limDirected {
+	L := db.ChunkLimit
+	H := L / 2
+	big := 100 * L // a limit that plays no part
+	pre := []string{"MODE tiny", "K MBOX b", "W SELECT b"}
+	b := func(n int) string { return fmt.Sprintf("K BATCH b %d", n) }
+	h := func(name string, lim [3]int, steps ...string) limDirected {
+		return limDirected{name, lim, append(append([]string{}, pre...), steps...)}
+	}
+	return []limDirected{
+		// message-count limit
+		h("count-limit-eq-chunk", [3]int{8, L, big}, b(L+1), b(2*L+1), b(L), b(1)),
+		h("count-limit-last-slice", [3]int{8, 2 * L, big}, b(2*L+1), b(2*L)),
+		h("count-limit-middle-slice", [3]int{8, L + H, big}, b(2*L+1), b(L+1), b(H), b(H-1)),
+		h("count-limit-first-slice", [3]int{8, H, big}, b(H+1), b(L+1), b(H-1), b(2), b(1)),
+		h("count-limit-below-chunk", [3]int{8, L - 1, big}, b(L), b(L-1)),
+		h("count-limit-above-chunk", [3]int{8, L + 1, big}, b(L+2), b(L+1)),
+		// UID limit (an empty mailbox has UIDNEXT 1: n messages fit iff 1 + n <= maxUID)
+		h("uid-limit-eq-chunk", [3]int{8, big, L + 1}, b(L+1), b(L), b(1), b(L+1)),
+		h("uid-limit-middle-slice", [3]int{8, big, L + H + 1}, b(2*L+1), b(H-1)),
+		h("uid-limit-last-slice", [3]int{8, big, 2 * L}, b(2*L), b(2*L-1)),
+		// two mailboxes in one update: the one that fits must not keep its part
+		{"count-limit-two-mailboxes", [3]int{8, L, big}, []string{"MODE tiny", "K MBOX b", "K MBOX c", "W SELECT b",
+			fmt.Sprintf("K BATCH2 b %d c %d", H+1, L+1), fmt.Sprintf("K BATCH2 c %d b %d", H, H)}},
+		// multi-message client operations of more than L messages
+		{"count-limit-copy-move", [3]int{8, L + 1, big}, []string{"MODE tiny", fmt.Sprintf("K BATCH INBOX %d", L+1), "S0 CREATE d", "W SELECT d",
+			fmt.Sprintf("S0 COPY INBOX %d d", L+1), "S1 CREATE e", "S1 APPEND e", "W SELECT e", fmt.Sprintf("S1 MOVE INBOX %d e", L+1)}},
+		{"uid-limit-move-copy", [3]int{8, big, L + 2}, []string{"MODE tiny", fmt.Sprintf("K BATCH INBOX %d", L+1), "S0 CREATE d", "W SELECT d",
+			fmt.Sprintf("S0 MOVE INBOX %d d", L+1), "S1 CREATE e", "S1 APPEND e", "W SELECT e", fmt.Sprintf("S1 COPY d %d e", L+1)}},
+	}
+}
+
+// limSizeClass: the length of a multi-message operation relative to db.ChunkLimit and its half
+// limShortLine: a judge line with long mailbox contents cut (the replay file holds the steps; the line is a comment)
+func limShortLine(l string) string {
+	w := strings.Fields(l)
+	for i, x := range w {
+		if len(x) > 400 {
+			var mbs []string
+			for _, mb := range strings.Split(x, ";") {
+				if len(mb) > 120 {
+					mb = fmt.Sprintf("%s…(%d bytes)", mb[:100], len(mb))
+				}
+				mbs = append(mbs, mb)
+			}
+			w[i] = strings.Join(mbs, ";")
+		}
+	}
+	return strings.Join(w, " ")
+}
+
+func limSizeClass(n int) string {
+	L := db.ChunkLimit
+	H := L / 2
+	switch {
+	case n < H:
+		return "lt-half"
+	case n == H:
+		return "eq-half"
+	case n < L:
+		return "half-to-chunk"
+	case n == L:
+		return "eq-chunk"
+	case n < 2*L:
+		return "chunk-to-2chunks"
+	case n == 2*L:
+		return "eq-2chunks"
+	}
+	return "gt-2chunks"
+}
+
+// limSizeStat classifies one judged step of a size history: accepted exactly at the limit / with room, or refused
+// with the limit crossed in the first / a middle / the last slice of db.ChunkLimit messages (room = how many more
+// messages the target could take before the step).
+func limSizeStat(lim [3]int, line string, answer string) []string {
+	// judge-c17-wire <a> <b> <c> <op …> | <world before> => <status> | <world after>
+	parts := strings.Split(line, " | ")
+	if len(parts) != 3 {
+		return nil
+	}
+	head := strings.Fields(parts[0])
+	if len(head) < 5 {
+		return nil
+	}
+	f := head[4:]
+	var before []limMB
+	for _, e := range strings.Split(strings.TrimSuffix(strings.Fields(parts[1])[0], ";"), ";") {
+		if w := strings.SplitN(e, ":", 4); len(w) == 4 {
+			before = append(before, limMB{name: w[0], count: atoi(w[1]), uidNext: atoi(w[2])})
+		}
+	}
+	var target string
+	n := 0
+	switch {
+	case len(f) == 3 && f[0] == "batch":
+		target, n = f[1], atoi(f[2])
+	case len(f) == 5 && (f[0] == "copy" || f[0] == "move"):
+		target, n = f[4], atoi(f[3])-atoi(f[2])+1
+	default:
+		return nil
+	}
+	var mb *limMB
+	for i := range before {
+		if before[i].name == target {
+			mb = &before[i]
+		}
+	}
+	if mb == nil || n <= 0 {
+		return nil
+	}
+	roomCount, roomUID := lim[1]-mb.count, lim[2]-mb.uidNext
+	room, which := roomCount, "count"
+	if roomUID < roomCount {
+		room, which = roomUID, "uid"
+	}
+	kind := f[0]
+	out := []string{"sizes." + kind + "." + limSizeClass(n)}
+	L := db.ChunkLimit
+	switch {
+	case strings.Contains(answer, "refused-unchanged"):
+		slices := (n + L - 1) / L
+		pos := "middle"
+		switch idx := room / L; {
+		case slices == 1:
+			pos = "only"
+		case idx == 0:
+			pos = "first"
+		case idx >= slices-1:
+			pos = "last"
+		}
+		out = append(out, fmt.Sprintf("sizes.refused.%s-limit.crossed-in-%s-slice", which, pos))
+		if room > 0 && room%L == 0 {
+			out = append(out, "sizes.refused."+which+"-limit.room-is-a-multiple-of-the-chunk")
+		}
+	case strings.Contains(answer, "accepted") || strings.Contains(answer, "applied"):
+		if room == n {
+			out = append(out, "sizes.accepted."+which+"-limit.fits-exactly")
+		} else {
+			out = append(out, "sizes.accepted.with-room")
+		}
+	}
+	return out
+}
+
+// limSizeMust: the classes the size histories must have exercised (sizes.classes-zero counts the missing ones)
+var limSizeMust = []string{
+	"sizes.batch.lt-half", "sizes.batch.eq-half", "sizes.batch.half-to-chunk", "sizes.batch.eq-chunk", "sizes.batch.chunk-to-2chunks",
+	"sizes.batch.eq-2chunks", "sizes.batch.gt-2chunks", "sizes.copy.chunk-to-2chunks", "sizes.move.chunk-to-2chunks",
+	"sizes.refused.count-limit.crossed-in-first-slice", "sizes.refused.count-limit.crossed-in-middle-slice", "sizes.refused.count-limit.crossed-in-last-slice",
+	"sizes.refused.count-limit.crossed-in-only-slice", "sizes.refused.count-limit.room-is-a-multiple-of-the-chunk",
+	"sizes.refused.uid-limit.crossed-in-first-slice", "sizes.refused.uid-limit.crossed-in-middle-slice", "sizes.refused.uid-limit.crossed-in-last-slice",
+	"sizes.refused.uid-limit.room-is-a-multiple-of-the-chunk",
+	"sizes.accepted.count-limit.fits-exactly", "sizes.accepted.uid-limit.fits-exactly", "sizes.accepted.with-room",
+}
+
 type limHistory struct {
 	lim    [3]int
 	steps  []string
@@ -850,6 +1087,7 @@ func runLimitsOracle(args []string) int {
 	replay := fs.String("replay", "", "")
 	n := fs.Int("n", 12, "histories")
 	nsteps := fs.Int("steps", 25, "steps per history")
+	noSizes := fs.Bool("nosizes", false, "skip the SIZE x LIMIT histories")
 	_ = fs.Parse(args)
 	res := &OracleResult{Stats: map[string]int{}}
 	perCause := map[string]int{}
@@ -902,6 +1140,11 @@ func runLimitsOracle(args []string) int {
 			}
 			w := strings.Fields(a)
 			if len(w) >= 2 && w[0] == "ok" {
+				if strings.HasPrefix(tag, "size history") {
+					for _, k := range limSizeStat(h.lim, h.lines[i], w[1]) {
+						res.Stats[k]++
+					}
+				}
 				res.Stats["judge."+w[1]]++
 				if strings.HasPrefix(w[1], "nontrivial") {
 					distinct[h.lines[i]] = true
@@ -912,7 +1155,7 @@ func runLimitsOracle(args []string) int {
 			if m := awReCause.FindStringSubmatch(a); m != nil {
 				cause = m[1]
 			}
-			report(cause, fmt.Sprintf("step %q: %s | observed: %s", h.lsteps[i], a, h.lines[i]), stepIdx)
+			report(cause, fmt.Sprintf("step %q: %s | observed: %s", h.lsteps[i], a, limShortLine(h.lines[i])), stepIdx)
 		}
 	}
 	finish := func() int {
@@ -975,6 +1218,48 @@ func runLimitsOracle(args []string) int {
 			res.Stats["corpus"]++
 			judgeHistory(runLimHistory(nil, lim, 0, steps), "corpus history "+filepath.Base(f))
 		}
+	}
+	// then SIZE x LIMIT: operations on both sides of db.ChunkLimit against limits crossed in the first / a middle /
+	// the last slice (whatever the seed)
+	if !*noSizes {
+		t0 := time.Now()
+		for _, d := range limSizeHistories() {
+			res.Stats["sizes.histories"]++
+			judgeHistory(runLimHistory(nil, d.lim, 0, d.steps), "size history "+d.name)
+		}
+		// and a few random ones: a limit near H, L, L+H or 2L (count or UID), batches near H, L, 2L and small ones
+		sg := NewRng(*seed ^ 0x51ce)
+		nbig := *n / 20
+		if nbig < 1 {
+			nbig = 1
+		}
+		for k := 0; k < nbig; k++ {
+			L := db.ChunkLimit
+			near := func() int { return Pick(sg, []int{L / 2, L, L + L/2, 2 * L}) + sg.Range(0, 4) - 2 }
+			lim := [3]int{8, near(), 100 * L}
+			if sg.Bool() {
+				lim = [3]int{8, 100 * L, near() + 1}
+			}
+			steps := []string{"MODE tiny", "K MBOX b", "W SELECT b"}
+			for j := 0; j < 4; j++ {
+				nmsg := sg.Range(1, 3)
+				if sg.Chance(2, 3) {
+					nmsg = Pick(sg, []int{L / 2, L, L, 2 * L}) + sg.Range(0, 2) - 1
+				}
+				steps = append(steps, fmt.Sprintf("K BATCH b %d", nmsg))
+			}
+			res.Stats["sizes.histories.random"]++
+			judgeHistory(runLimHistory(nil, lim, 0, steps), fmt.Sprintf("size history random (seed %d, %d)", *seed, k))
+		}
+		missing := 0
+		for _, k := range limSizeMust {
+			if res.Stats[k] == 0 {
+				missing++
+				fmt.Fprintln(os.Stderr, "size class never exercised:", k)
+			}
+		}
+		res.Stats["sizes.classes-zero"] = missing
+		res.Stats["sizes.seconds"] = int(time.Since(t0).Seconds())
 	}
 	g := NewRng(*seed)
 	for k := 0; k < *n; k++ {
